@@ -30,9 +30,13 @@ import (
 
 var sweepAlphabet = []string{"a", "in", ".", "..", ""}
 
+// a second, smaller alphabet with the sibling name `inx` (string-prefix confusion), swept up to 3 segments
+var siblingAlphabet = []string{"inx", "in", "..", "a"}
+
 // sweepStrings: every spelling, deduplicated and sorted
 func sweepStrings(maxsegs int) []string {
 	set := map[string]bool{}
+	alphabet := sweepAlphabet
 	var rec func(k int, cur []string)
 	rec = func(k int, cur []string) {
 		if len(cur) > 0 {
@@ -45,11 +49,17 @@ func sweepStrings(maxsegs int) []string {
 		if k == 0 {
 			return
 		}
-		for _, a := range sweepAlphabet {
+		for _, a := range alphabet {
 			rec(k-1, append(append([]string{}, cur...), a))
 		}
 	}
 	rec(maxsegs, nil)
+	alphabet = siblingAlphabet
+	if maxsegs > 3 {
+		rec(3, nil)
+	} else {
+		rec(maxsegs, nil)
+	}
 	out := make([]string, 0, len(set))
 	for s := range set {
 		out = append(out, s)
@@ -201,27 +211,31 @@ func (sw *sweeper) call(e *env, hist []string, line string) (res string, clean b
 	return res, !insideChanged
 }
 
-// sweepMain: stacks over memory without a cache ("light") are swept with maxsegs segments, stacks with a disk
-// bottom or a cache ("heavy": every case costs file-system traffic or dozens of error values with stack
-// traces) with heavysegs.  Each shard starts at a different stack so that the disk stacks of the shards do
+// sweepMain: the nine core stacks over memory ("light") are swept with maxsegs segments, the other stacks over
+// memory without a cache with extrasegs, stacks with a disk bottom or a cache ("heavy": every case costs
+// file-system traffic or dozens of error values with stack traces) with heavysegs.  Each shard starts at a different stack so that the disk stacks of the shards do
 // not all run at the same moment.
-func sweepMain(w *bufio.Writer, maxsegs, shard, nshards, heavysegs int) {
-	strsLight, strsHeavy := sweepStrings(maxsegs), sweepStrings(heavysegs)
+func sweepMain(w *bufio.Writer, maxsegs, shard, nshards, heavysegs, extrasegs int) {
+	strsLight, strsHeavy, strsExtra := sweepStrings(maxsegs), sweepStrings(heavysegs), sweepStrings(extrasegs)
 	stacks := fixedStacks()
 	pos := positions()
 	sw := &sweeper{w: w}
 	only := os.Getenv("VIEWS_STACK")
-	nLight, nHeavy := 0, 0
+	nLight, nHeavy, nExtra := 0, 0, 0
 	for k := range stacks {
 		st := stacks[(k+shard*len(stacks)/nshards)%len(stacks)]
 		if only != "" && !strings.HasPrefix(st.name, only) {
 			continue
 		}
 		strs := strsLight
-		if st.cache || st.bottom == "disk" {
+		switch {
+		case st.cache || st.bottom == "disk":
 			strs = strsHeavy
 			nHeavy++
-		} else {
+		case !st.core:
+			strs = strsExtra
+			nExtra++
+		default:
 			nLight++
 		}
 		idx := 0
@@ -290,8 +304,8 @@ func sweepMain(w *bufio.Writer, maxsegs, shard, nshards, heavysegs int) {
 			e.s.Reset()
 		}
 	}
-	fmt.Fprintf(w, "sweep stacks=%d light=%d:%d heavy=%d:%d positions=%d cases=%d skipped_selfcopy=%d calls=%d rebuilds=%d fails=%d\n",
-		len(stacks), nLight, len(strsLight), nHeavy, len(strsHeavy), len(pos), sw.cases, sw.skipped, sw.calls, sw.rebuilds, sw.fails)
+	fmt.Fprintf(w, "sweep stacks=%d light=%d:%d extra=%d:%d heavy=%d:%d positions=%d cases=%d skipped_selfcopy=%d calls=%d rebuilds=%d fails=%d\n",
+		len(stacks), nLight, len(strsLight), nExtra, len(strsExtra), nHeavy, len(strsHeavy), len(pos), sw.cases, sw.skipped, sw.calls, sw.rebuilds, sw.fails)
 }
 
 // climbs: the spelling leaves the root it is given to
